@@ -268,6 +268,28 @@ func (f *TF) RemT(a, b *Term) *Term {
 	return f.mk(&Term{Op: "remt", Sort: SInt, Args: []*Term{a, b}, Lo: lo, Hi: hi})
 }
 
+// EDiv / EMod: SMT-LIB (Euclidean) div and mod by a positive constant.
+func (f *TF) EDiv(a *Term, c int64) *Term {
+	if c == 1 {
+		return a
+	}
+	if a.Op == "int" {
+		q, _ := new(big.Int).DivMod(a.I, bi(c), new(big.Int))
+		return f.IntB(q)
+	}
+	return f.mk(&Term{Op: "ediv", Sort: SInt, Args: []*Term{a, f.Int(c)}})
+}
+func (f *TF) EMod(a *Term, c int64) *Term {
+	if a.Op == "int" {
+		_, m := new(big.Int).DivMod(a.I, bi(c), new(big.Int))
+		return f.IntB(m)
+	}
+	if a.Lo != nil && a.Hi != nil && a.Lo.Sign() >= 0 && a.Hi.Cmp(bi(c)) < 0 {
+		return a
+	}
+	return f.mk(&Term{Op: "emod", Sort: SInt, Args: []*Term{a, f.Int(c)}, Lo: bi(0), Hi: bi(c - 1)})
+}
+
 func typeRange(bits int, signed bool) (*big.Int, *big.Int) {
 	if signed {
 		h := new(big.Int).Lsh(bi(1), uint(bits-1))
@@ -906,6 +928,10 @@ func (p *printer) pr1(t *Term) string {
 		return "(" + t.Op + " " + p.args(t) + ")"
 	case "neg":
 		return "(- " + p.args(t) + ")"
+	case "ediv":
+		return "(div " + p.args(t) + ")"
+	case "emod":
+		return "(mod " + p.args(t) + ")"
 	case "divt":
 		a, b := p.pr(t.Args[0]), p.pr(t.Args[1])
 		if t.Args[1].Op == "int" && t.Args[1].I.Sign() > 0 {
